@@ -212,7 +212,7 @@ def ax_env_ref(tier):
     if len(lits) != 2:
         raise LostAnchor('axcheck env_ref: the two reference patterns of expand_one_env were not found (%d)' % len(lits))
     n = 5 if tier == 'quick' else 6
-    ts = list(strings(['a', '$', '{', '}', '?'], n))
+    ts = list(strings(['a', '$', '{', '}', '?', '\u00e9'], n))
     total = 0
     for k_, ptn in enumerate(lits):
         s = Session(); s.set(ptn)
@@ -227,6 +227,9 @@ def ax_env_ref(tier):
             g0, g1, g2, g3 = (c[0] + [None] * 4)[:4]
             if g3 is None or len(g3) >= len(t):
                 return {'string': t, 'detail': 'pattern %d: group 3 %r is not a proper suffix of %r' % (k_ + 1, g3, t)}, total
+            # a name is made of the characters an assignment accepts (ASCII letters, digits, `_`): a letter of another script ends it
+            if g2 not in ('$', '?') and not (g2 and all(ch.isascii() and (ch.isalnum() or ch == '_') for ch in g2)):
+                return {'string': t, 'detail': 'pattern %d: the referenced name %r of %r is not an ASCII name, `$` or `?`' % (k_ + 1, g2, t)}, total
             ref = ('$' + g2) if k_ == 0 else ('${' + g2 + '}')
             if t[:len(t) - len(g0)] + g1 + ref + g3 != t:
                 return {'string': t, 'detail': 'pattern %d: head %r + reference %r + tail %r is not the text %r' % (k_ + 1, g1, ref, g3, t)}, total
